@@ -1,0 +1,33 @@
+//go:build verif
+
+package cmd
+
+import (
+	"bytes"
+
+	"helm.sh/helm/v4/pkg/action"
+	"helm.sh/helm/v4/pkg/cli"
+	"helm.sh/helm/v4/pkg/storage/driver"
+)
+
+// VerifRunCmd runs one helm command line (args without the program name) through the real root
+// command with the given action configuration, the way the package's own tests do
+// (executeActionCommandStdinC), and returns what the command printed and its error.
+func VerifRunCmd(args []string, cfg *action.Configuration) (string, error) {
+	settings = cli.New() // flag state of a previous run must not leak into this one
+	buf := new(bytes.Buffer)
+	root, err := newRootCmdWithConfig(cfg, buf, args)
+	if err != nil {
+		return "", err
+	}
+	root.SetOut(buf)
+	root.SetErr(buf)
+	root.SetArgs(args)
+	if cfg.Releases != nil {
+		if mem, ok := cfg.Releases.Driver.(*driver.Memory); ok {
+			mem.SetNamespace(settings.Namespace())
+		}
+	}
+	_, err = root.ExecuteC()
+	return buf.String(), err
+}
